@@ -518,6 +518,9 @@ def run(ctx, res):
     pixel_type_mask(prog, res)
     m = buffers_guarded(prog, res)
     res.guard(shape_rules, prog, res)
+    from ..indexguard import rule_index_guards
+    res.guard(rule_index_guards, prog, res, ["sample_type_to_string", "bytes_of_type"])
+    res.require_min("R-INDEX", 2)
     res.require_min("R-SHAPE", 6)
     res.require_min("O-PROV", 4)
     res.require_min("R-REALLOC-COVERS", 2)
